@@ -29,7 +29,7 @@ CONSTANTS MaxLat
 
 Crc5(v11) == Usb3Crc5(v11)
 HdrCrc16(dw) == Usb3Crc16(dw)
-Crc32Of(pl) == Usb3Crc32Bytes(pl)
+Crc32Of(pl) == Crc32Stream(pl)        \* = Usb3Crc32Bytes(pl), see SsLink
 
 RxInit == [ph |-> "idle", hw |-> <<>>, len |-> 0, got |-> <<>>, kbad |-> FALSE,
            owe |-> <<>>, streamed |-> <<>>, optbad |-> FALSE, inpkt |-> FALSE]
@@ -43,14 +43,14 @@ HdrLen(hw) == Hi16(hw[2])
 
 Owed(v) == <<[v |-> v, vw |-> 0, age |-> 0]>>
 
-\* symbols of word w appended to got until `need` symbols are there; a K symbol among the data bytes ends it
-RECURSIVE Collect(_, _, _, _, _)
-Collect(got, kbad, w, i, len) ==
-    IF i > 4 \/ Len(got) >= len + 4 \/ kbad THEN [got |-> got, kbad |-> kbad]
-    ELSE IF BitOf(w.c, i - 1) = 1 /\ Len(got) < len THEN [got |-> got, kbad |-> TRUE]
-    ELSE Collect(Append(got, w.d[i]), kbad, w, i + 1, len)
+\* symbols of word w taken into got: up to the end of payload + CRC; a K symbol among the data bytes ends it
+TakeN(q, w) == Min(4, q.len + 4 - Len(q.got))
+KPos(q, w) == LET n == TakeN(q, w)
+                  ks == {i \in 1..n : BitOf(w.c, i - 1) = 1 /\ Len(q.got) + i <= q.len}
+              IN IF ks = {} THEN 0 ELSE CHOOSE i \in ks : \A k \in ks : i <= k
 
-\* 1. the parser consumes the word of the cycle (only valid words count)
+\* 1. the parser consumes the word of the cycle (only valid words count).  When the last CRC-32 symbol
+\*    arrives the phase becomes "crcdue"; RxResolve then computes the verdict (one CRC-32 evaluation).
 RxConsume(p, w) ==
     IF ~w.v THEN p
     ELSE
@@ -58,11 +58,8 @@ RxConsume(p, w) ==
       CASE q.ph = "idle" ->
              IF IsSet(w, HPSTART) THEN [q EXCEPT !.ph = "dw", !.hw = <<>>, !.optbad = FALSE] ELSE q
         [] q.ph = "dw" ->
-             LET hw == Append(q.hw, w) IN
-             IF Len(hw) < 4 THEN [q EXCEPT !.hw = hw]
-             ELSE IF ~HdrIsData(hw) THEN [q EXCEPT !.ph = "idle", !.hw = <<>>]
-             ELSE IF HdrCrcsOk(hw) THEN [q EXCEPT !.ph = "hdrgood", !.hw = hw]
-             ELSE [q EXCEPT !.ph = "idle", !.hw = <<>>, !.optbad = TRUE]
+             IF Len(q.hw) < 3 THEN [q EXCEPT !.hw = Append(q.hw, w)]
+             ELSE [q EXCEPT !.ph = "hdrdue", !.hw = Append(q.hw, w)]
         [] q.ph = "hdrgood" ->
              IF IsSet(w, DPPSTART)
              THEN [q EXCEPT !.ph = "payload", !.len = HdrLen(q.hw), !.got = <<>>, !.kbad = FALSE,
@@ -70,12 +67,21 @@ RxConsume(p, w) ==
              ELSE IF IsSet(w, HPSTART) THEN [q EXCEPT !.ph = "dw", !.hw = <<>>]
              ELSE [q EXCEPT !.ph = "idle", !.hw = <<>>]
         [] q.ph = "payload" ->
-             LET c == Collect(q.got, q.kbad, w, 1, q.len) IN
-             IF c.kbad THEN [q EXCEPT !.ph = "idle", !.got = c.got, !.kbad = TRUE, !.owe = Owed("bad")]
-             ELSE IF Len(c.got) < q.len + 4 THEN [q EXCEPT !.got = c.got]
-             ELSE LET pl == SubSeq(c.got, 1, q.len) IN
-                  [q EXCEPT !.ph = "idle", !.got = c.got,
-                            !.owe = Owed(IF SubSeq(c.got, q.len + 1, q.len + 4) = Crc32Of(pl) THEN "good" ELSE "bad")]
+             IF KPos(q, w) > 0
+             THEN [q EXCEPT !.ph = "idle", !.got = q.got \o SubSeq(w.d, 1, KPos(q, w) - 1), !.kbad = TRUE, !.owe = Owed("bad")]
+             ELSE IF Len(q.got) + TakeN(q, w) < q.len + 4 THEN [q EXCEPT !.got = q.got \o SubSeq(w.d, 1, TakeN(q, w))]
+             ELSE [q EXCEPT !.ph = "crcdue", !.got = q.got \o SubSeq(w.d, 1, TakeN(q, w))]
+
+\* 2. header / payload CRCs are evaluated exactly once, when due
+RxResolve(q) ==
+    IF q.ph = "hdrdue" THEN
+        (IF ~HdrIsData(q.hw) THEN [q EXCEPT !.ph = "idle", !.hw = <<>>]
+         ELSE IF HdrCrcsOk(q.hw) THEN [q EXCEPT !.ph = "hdrgood"]
+         ELSE [q EXCEPT !.ph = "idle", !.hw = <<>>, !.optbad = TRUE])
+    ELSE IF q.ph = "crcdue" THEN
+        [q EXCEPT !.ph = "idle",
+                  !.owe = Owed(IF SubSeq(q.got, q.len + 1, q.len + 4) = Crc32Of(SubSeq(q.got, 1, q.len)) THEN "good" ELSE "bad")]
+    ELSE q
 
 \* Env assumption: a new verdict never becomes due while the previous one is still owed
 RxOverrun(p, p1) == p.owe # <<>> /\ p.ph = "payload" /\ p1.ph = "idle"
@@ -83,7 +89,7 @@ RxOverrun(p, p1) == p.owe # <<>> /\ p.ph = "payload" /\ p1.ph = "idle"
 Bytes(mask, sd) == SubSeq(sd, 1, MaskLen(mask))
 ExpectedStream(p1) == SubSeq(p1.got, 1, Min(p1.len, Len(p1.got)))
 
-\* 2. the outputs of the cycle are judged in the state p1 = RxConsume(p, r.iw)
+\* 3. the outputs of the cycle are judged in the state p1 = RxResolve(RxConsume(p, r.iw))
 RxFailing(p1, r) ==
     LET st == IF r.sv # 0 /\ MaskLen(r.sv) # 99 THEN p1.streamed \o Bytes(r.sv, r.sd) ELSE p1.streamed IN
     IF MaskLen(r.sv) = 99 THEN "rx_stream_mask"
@@ -109,8 +115,8 @@ RxAfter(p1, r) ==
          THEN [p1 EXCEPT !.owe = <<[p1.owe[1] EXCEPT !.age = p1.owe[1].age + 1]>>, !.streamed = st]
     ELSE [p1 EXCEPT !.streamed = st]
 
-Judge(p, r) ==
-    LET p1 == RxConsume(p, r.iw) IN
+\* p1 = RxResolve(RxConsume(p, r.iw)) is passed in, bound once by the caller (it may hold a CRC evaluation)
+JudgeE(p, p1, r) ==
     IF RxOverrun(p, p1) THEN [f |-> "env_verdict_overrun", n |-> p]
     ELSE [f |-> RxFailing(p1, r), n |-> RxAfter(p1, r)]
 
